@@ -33,6 +33,9 @@ POSITIONS = {
     "disc.value": ("benign-cat", True),
     "inline-enum.value": ("benign-inline", True),
     "array-item.description": ("benign text", False),
+    "freeform.description": ("benign text", False),
+    "map.description": ("benign text", False),
+    "map-prop.description": ("benign text", False),
 }
 
 
@@ -68,7 +71,10 @@ def doc(t: dict) -> dict:
                                    g("prop.name"): {"type": "string"},
                                    "motto": {"type": "string", "default": g("prop.default")},
                                    "mood": {"type": "string", "enum": ["calm", g("inline-enum.value")]},
-                                   "kind": {"$ref": R + "Kind"}, "labels": {"$ref": R + "Labels"}}},
+                                   "kind": {"$ref": R + "Kind"}, "labels": {"$ref": R + "Labels"}, "bag": {"$ref": R + "Bag"}, "counts": {"$ref": R + "Counts"},
+                                   "extras": {"type": "object", "additionalProperties": {"type": "string"}, "description": g("map-prop.description")}}},
+            "Bag": {"type": "object", "additionalProperties": True, "description": g("freeform.description")},
+            "Counts": {"type": "object", "additionalProperties": {"type": "integer"}, "description": g("map.description")},
             "Kind": {"type": "string", "description": g("enum.description"), "enum": ["plain", g("enum.value")]},
             "Labels": {"type": "array", "items": {"type": "string", "description": g("array-item.description")}, "description": g("alias.description")},
             "Cat": {"type": "object", "properties": {"petType": {"type": "string"}, "lives": {"type": "integer"}}, "required": ["petType"]},
